@@ -42,6 +42,7 @@ def _expect_ranks(run):
 
 
 def check(an, rep, tier):
+    prog = an.prog
     rep.explanation = decided_split(
         'S-* every contraction, einsum (letter unification incl. "..."), '
         'concatenation axis / zero-block size, Kronecker reshape, advanced '
@@ -172,6 +173,10 @@ def check(an, rep, tier):
                     'ok' if tot == 1 else 'violation',
                     '' if tot == 1 else 'the value enters the cores with total '
                     'degree %s (per core %s), expected 1' % (tot, degs))
+    from .. import rules_proto as _RP
+    _callers = {f.qualname for f in prog.all_functions()
+                if f.module.name in ('act_one', 'act_two', 'data', 'props')}
+    _RP.check_param_forwarding(prog, rep, callers=_callers)
     rep.floor('S-ret', 20, 'algebra results')
     rep.floor('S-concat', 5, 'block concatenations of add')
     rep.floor('S-einsum', 3, 'einsum sites')
